@@ -1,6 +1,8 @@
 // Package c19 decides property C19: combining search criteria yields their
 // intersection. Part 1 (this file): the algebraic law
-//   forall m: Match(a.And(b), m) <=> Match(a, m) && Match(b, m)
+//
+//	forall m: Match(a.And(b), m) <=> Match(a, m) && Match(b, m)
+//
 // judged by the independent matcher kit/smodel over a finite universe.
 package c19
 
@@ -260,7 +262,7 @@ func TestPropAndLaw(t *testing.T) {
 func TestReplayRegressions(t *testing.T) {
 	d := func(day int) time.Time { return smodel.DayTime(day, 12, 0, time.UTC) }
 	pairs := [][2]imap.SearchCriteria{
-		{{Smaller: 5}, {Since: d(1)}},  // F-C19a: unset Smaller of the argument must not wipe a set one
+		{{Smaller: 5}, {Since: d(1)}}, // F-C19a: unset Smaller of the argument must not wipe a set one
 		{{Since: d(1)}, {Smaller: 5}},
 		{{Larger: 5}, {Before: d(2)}},
 		{{Larger: 3}, {Larger: 5}}, {{Larger: 5}, {Larger: 3}},
